@@ -26,6 +26,32 @@ theorem bumpCount_owned (bytes : Bytes) (cells cells' : List (Nat × StrElt)) (h
         simp only [cellsOwned, List.flatMap_cons] at this ⊢
         rw [this]
 
+theorem bumpCount_items (bytes : Bytes) (cells cells' : List (Nat × StrElt)) (h : bumpCount bytes cells = some cells') :
+    ∀ x ∈ cells'.map (·.2), ∃ y ∈ cells.map (·.2), y.string = x.string ∧ y.stat = x.stat := by
+  induction cells generalizing cells' with
+  | nil => simp [bumpCount] at h
+  | cons a rest ih =>
+    obtain ⟨c, r⟩ := a
+    simp only [bumpCount] at h
+    split at h
+    · cases h
+      intro x hx
+      simp only [List.map_cons, List.mem_cons] at hx
+      rcases hx with rfl | hx
+      · exact ⟨r, by simp, rfl, rfl⟩
+      · exact ⟨x, by simp [hx], rfl, rfl⟩
+    · cases hb : bumpCount bytes rest with
+      | none => simp [hb] at h
+      | some rest' =>
+        simp only [hb, Option.map_some, Option.some.injEq] at h
+        subst h
+        intro x hx
+        simp only [List.map_cons, List.mem_cons] at hx
+        rcases hx with hx | hx
+        · exact ⟨r, by simp, by rw [hx], by rw [hx]⟩
+        · obtain ⟨y, hy, e1, e2⟩ := ih rest' hb x hx
+          exact ⟨y, by simp [hy], e1, e2⟩
+
 /-- Blocks of the list `*strings` during the counting loop: its struct and the cells still in it
     (with their strings when those are owned, i.e. `stat = false`). -/
 abbrev stringsOwned (stat : Bool) (sHdr : Nat) (cells : List (Nat × ABuf)) : List Nat :=
@@ -36,16 +62,19 @@ abbrev refsOwned (l : AList StrElt) : List Nat := l.hdr :: cellsOwned StrElt.own
 /-- First loop of `wbxml_strtbl_check_references` (repaired): either every string ends up in exactly
     one reference element (or is destroyed as a duplicate), or — on any failed allocation — the
     remaining strings, the string in hand, the references and both lists are all released. -/
-theorem countRefs_spec (stat : Bool) (sHdr : Nat) (cells : List (Nat × ABuf)) (referenced : AList StrElt)
-    (s : Ledger) (wf : s.WF) (own : Owns s (stringsOwned stat sHdr cells ++ refsOwned referenced)) :
+theorem countRefs_spec (Bor : Nat → Prop) (stat : Bool) (sHdr : Nat) (cells : List (Nat × ABuf)) (referenced : AList StrElt)
+    (s : Ledger) (wf : s.WF) (own : Owns s (stringsOwned stat sHdr cells ++ refsOwned referenced))
+    (hbR : ∀ y ∈ referenced.cells.map (·.2), y.stat = true → Bor y.string.hdr)
+    (hbC : stat = true → ∀ b ∈ cells.map (·.2), Bor b.hdr) :
     Good (countRefs stat sHdr referenced cells) s (fun r s' =>
       Clean s s' (stringsOwned stat sHdr cells ++ refsOwned referenced)
         (match r with | none => [] | some ref' => sHdr :: refsOwned ref') ∧
-      (s.hits < s'.hits → r = none)) := by
+      (s.hits < s'.hits → r = none) ∧
+      (∀ ref', r = some ref' → ∀ x ∈ ref'.cells.map (·.2), x.stat = true → Bor x.string.hdr)) := by
   induction cells generalizing referenced s with
   | nil =>
     simp only [countRefs, pure_eq, good_ret]
-    refine ⟨?_, by simp⟩
+    refine ⟨?_, by simp, fun ref' h => by cases h; exact hbR⟩
     simpa [stringsOwned, cellsOwned] using Clean.id wf own
   | cons x rest ih =>
     obtain ⟨c, string⟩ := x
@@ -129,11 +158,16 @@ theorem countRefs_spec (stat : Bool) (sHdr : Nat) (cells : List (Nat × ABuf)) (
         rcases List.mem_cons.1 hi with h | h
         · subst h; exact hsO hm
         · exact dORest i hm h
-      refine (ih { referenced with cells := cells' } s2 c2.wf own2).mono ?_
-      intro r s3 ⟨c3, h3⟩
+      have hbR' : ∀ y ∈ ({ referenced with cells := cells' } : AList StrElt).cells.map (·.2), y.stat = true → Bor y.string.hdr := by
+        intro y hy hst
+        obtain ⟨z, hz, e1, e2⟩ := bumpCount_items _ _ _ hb y hy
+        have := hbR z hz (by rw [e2]; exact hst)
+        rwa [e1] at this
+      refine (ih { referenced with cells := cells' } s2 c2.wf own2 hbR' (fun h b hb' => hbC h b (by simp only [List.map_cons, List.mem_cons]; exact Or.inr hb'))).mono ?_
+      intro r s3 ⟨c3, h3, p3⟩
       rw [hR'] at c3
       have hn3 := c3.next; have hh3 := c3.hits
-      refine ⟨⟨?_, ?_, c3.nodup, by rw [c3.sched, c2.sched, c1'.sched], by omega, by omega, c3.wf⟩, fun hh => h3 (by omega)⟩
+      refine ⟨⟨?_, ?_, c3.nodup, by rw [c3.sched, c2.sched, c1'.sched], by omega, by omega, c3.wf⟩, fun hh => h3 (by omega), p3⟩
       · intro i
         rw [c3.live, c2.live, c1'.live]
         have a1 := hold i
@@ -171,7 +205,7 @@ theorem countRefs_spec (stat : Bool) (sHdr : Nat) (cells : List (Nat × ABuf)) (
         refine (hfail s3 c3.wf oR3 oS3 dRS).mono ?_
         intro r s4 ⟨er, l4, sc4, n4, hh4, wf4⟩
         subst er
-        refine ⟨⟨?_, by simp, by simp, by rw [sc4, c3.sched, c2.sched, c1'.sched], by omega, by omega, wf4⟩, by simp⟩
+        refine ⟨⟨?_, by simp, by simp, by rw [sc4, c3.sched, c2.sched, c1'.sched], by omega, by omega, wf4⟩, by simp, by simp⟩
         intro i
         rw [l4, c3.live, c2.live, c1'.live]
         have a1 := hold i
@@ -232,7 +266,7 @@ theorem countRefs_spec (stat : Bool) (sHdr : Nat) (cells : List (Nat × ABuf)) (
           refine (hfail s4 c4.wf oR4 oS4 dRS).mono ?_
           intro r s5 ⟨er, l5, sc5, n5, hh5, wf5⟩
           subst er
-          refine ⟨⟨?_, by simp, by simp, by rw [sc5, c4.sched, c3.sched, c2.sched, c1'.sched], by omega, by omega, wf5⟩, by simp⟩
+          refine ⟨⟨?_, by simp, by simp, by rw [sc5, c4.sched, c3.sched, c2.sched, c1'.sched], by omega, by omega, wf5⟩, by simp, by simp⟩
           intro i
           rw [l5, c4'.live, c3.live, c2.live, c1'.live]
           have a1 := hold i
@@ -283,10 +317,19 @@ theorem countRefs_spec (stat : Bool) (sHdr : Nat) (cells : List (Nat × ABuf)) (
               · rcases List.mem_cons.1 hi with h' | h'
                 · subst h'; exact hsO h
                 · exact dORest i h h'
-          refine (ih ref3 s3 c3.wf own3).mono ?_
-          intro r s4 ⟨c4, h4⟩
+          have hbR3 : ∀ y ∈ ref3.cells.map (·.2), y.stat = true → Bor y.string.hdr := by
+            intro y hy hst
+            simp only [hcells, List.map_append, List.map_cons, List.map_nil, List.mem_append, List.mem_singleton] at hy
+            rcases hy with hy | hy
+            · exact hbR y hy hst
+            · subst hy
+              simp only at hst ⊢
+              rw [es0]
+              exact hbC (by rw [← et0]; exact hst) string (by simp)
+          refine (ih ref3 s3 c3.wf own3 hbR3 (fun h b hb' => hbC h b (by simp only [List.map_cons, List.mem_cons]; exact Or.inr hb'))).mono ?_
+          intro r s4 ⟨c4, h4, p4⟩
           have hn4 := c4.next; have hh4 := c4.hits
-          refine ⟨⟨?_, ?_, c4.nodup, by rw [c4.sched, c3.sched, c2.sched, c1'.sched], by omega, by omega, c4.wf⟩, ?_⟩
+          refine ⟨⟨?_, ?_, c4.nodup, by rw [c4.sched, c3.sched, c2.sched, c1'.sched], by omega, by omega, c4.wf⟩, ?_, p4⟩
           · intro i
             rw [c4.live, c3.live, c2.live, c1'.live]
             have a1 := hold i; have a2 := hR3 i
@@ -732,6 +775,364 @@ theorem splitRefs_spec (rHdr : Nat) (cells : List (Nat × StrElt)) (e : AEnc) (r
             simp only [List.mem_append, List.not_mem_nil, or_false]
             clear ih hfail hborRest hrefstep hrec c1 c1' ca ca' d3 d3' own ownE ownT ownT' ownCR ownRR ownRef ownRest ownRes keep1 keepT ownE1 ownRef1 ownRest1 ownRes1 ownRC1 oRC_t2 oRes_t2 hold hbor hX0 lt lt0 lt2 oE3_t2 fE3 dE3rest dXrest hRef2_t hE_t hprov hprov' hown2 oRef2_t2 hNref2 fN fN0
             grind
-    · sorry
+    · -- the reference goes to `one_ref`
+      have hresl1 : result.hdr ∈ s1.live := ownRes1.2 _ (by simp [refsOwned])
+      refine Good.bind (listAppend_spec result ref s1 c1'.wf hresl1) ?_
+      intro r2 s2 ⟨eh2, hh2', hcase⟩
+      obtain ⟨res2, ok2⟩ := r2
+      simp only at eh2 hh2' hcase ⊢
+      rcases hcase with ⟨hok, hl2, c2⟩ | ⟨hok, cid, hcells, c2⟩
+      · subst hok
+        simp only [Bool.not_false, if_true, hl2]
+        have hn2 := c2.next; have hh2 := c2.hits
+        have keep2 : ∀ Y : List Nat, Owns s1 Y → Owns s2 Y := fun Y oY => c2.keeps oY (by simp)
+        refine Good.bind (strEltDestroy_spec (some ref) s2 c2.wf (by simpa [ownedEltOpt] using keep2 _ ownRef1)) ?_
+        intro _ s3 ⟨d3, hd3, nd3⟩
+        have d3' : Clean s2 s3 ref.owned [] := by simpa [ownedEltOpt] using d3
+        have oRC3 : Owns s3 (refCellsOwned rHdr rest) := by
+          refine d3'.keeps (keep2 _ ownRC1) ?_
+          intro i hi hm
+          rcases List.mem_cons.1 hi with h | h
+          · subst h; exact hrRef hm
+          · exact dRefRest i hm h
+        have oRes3 : Owns s3 (refsOwned result) := d3'.keeps (keep2 _ ownRes1) (fun i hi hm => dRefRes i hm hi)
+        refine (hfail s3 e d3.wf oRC3 oRes3).mono ?_
+        intro r s4 ⟨er, l4, sc4, n4, hh4, wf4⟩
+        subst er
+        simp only [List.append_nil]
+        refine ⟨by simp, by simp, by simp, ⟨?_, fun i hi => Or.inl (List.mem_append_left _ hi), ownE.1, by rw [sc4, d3.sched, c2.sched, c1'.sched],
+          by omega, by omega, wf4⟩, by simp, fun l' hl' x hx => Or.inl ⟨l', hl', hx⟩⟩
+        intro i
+        rw [l4, d3'.live, c2.live, c1'.live, hX0]
+        have a1 := ownE.2 i; have a2 := dERef i; have a3 := dERest i; have a4 := dERes i
+        simp only [refCellsOwned] at *
+        generalize cellsOwned StrElt.owned rest = RS at *
+        generalize refsOwned result = RR at *
+        simp only [List.mem_cons, List.mem_singleton, List.not_mem_nil, or_false, not_false_eq_true, and_true]
+        clear ih hfail hborRest c1 c1' c2 d3 d3' own ownE ownT ownT' ownCR ownRR ownRef ownRest ownRes keep1 keep2 ownE1 ownRef1 ownRest1 ownRes1 ownRC1 oRC3 oRes3 hold hbor hX0
+        grind
+      · subst hok
+        simp only [Bool.not_true, Bool.false_eq_true, if_false]
+        have hn2 := c2.next; have hh2 := c2.hits
+        have hfc : s1.next < cid ∧ cid ≤ s2.next := by have := c2.fresh cid (by simp); simpa using this
+        have keep2 : ∀ Y : List Nat, Owns s1 Y → Owns s2 Y := fun Y oY => c2.keeps oY (by simp)
+        have hR2 : ∀ i, i ∈ refsOwned res2 ↔ i ∈ refsOwned result ∨ i = cid ∨ i ∈ ref.owned := by
+          intro i
+          simp only [refsOwned, eh2, hcells, cellsOwned_append, List.mem_cons, List.mem_append]
+          simp only [cellsOwned, List.flatMap_cons, List.flatMap_nil, List.append_nil, List.mem_cons]
+          grind
+        have hnohit : ¬ s1.hits < s2.hits := by intro hh; have := hh2' hh; simp at this
+        have own2 : Owns s2 (e.owned ++ (refCellsOwned rHdr rest ++ refsOwned res2)) := by
+          have oE2 := keep2 _ ownE1
+          have oRC2 := keep2 _ ownRC1
+          have oRes2 := keep2 _ ownRes1
+          have oRef2 := keep2 _ ownRef1
+          have hcidl : cid ∈ s2.live := (c2.live _).2 (Or.inr (by simp))
+          have hcidOld : ∀ i, i ∈ s0.live → i ≠ cid := fun i hi h => by have := wf i hi; omega
+          have oR2 : Owns s2 (refsOwned res2) := by
+            refine ⟨?_, fun i hi => ?_⟩
+            · have hnR := ownRes.1
+              have hnRef := ownRef.1
+              simp only [refsOwned, eh2, hcells, cellsOwned_append] at hnR ⊢
+              simp only [cellsOwned, List.flatMap_cons, List.flatMap_nil, List.append_nil] at hnR ⊢
+              have b1 : ∀ i ∈ refsOwned result, i ≠ cid := fun i hi => hcidOld i (ownRes.2 i hi)
+              have b2 : ∀ i ∈ ref.owned, i ≠ cid := fun i hi => hcidOld i (ownRef.2 i hi)
+              have b3 := dRefRes
+              simp only [refsOwned, cellsOwned] at b1 b3
+              simp only [List.nodup_cons, List.nodup_append, List.mem_append, List.mem_cons] at hnR hnRef b1 b2 b3 ⊢
+              clear ih hfail hborRest c1 c1' c2 own ownE ownT ownT' ownCR ownRR ownRef ownRest ownRes keep1 keep2 ownE1 ownRef1 ownRest1 ownRes1 ownRC1 hold hbor hX0 oE2 oRC2 oRes2 oRef2 hR2
+              grind
+            · rcases (hR2 i).1 hi with h | h | h
+              · exact oRes2.2 i h
+              · subst h; exact hcidl
+              · exact oRef2.2 i h
+          refine Owns.append_iff.2 ⟨oE2, Owns.append_iff.2 ⟨oRC2, oR2, ?_⟩, ?_⟩
+          · intro i hi hm
+            rcases (hR2 i).1 hm with h | h | h
+            · exact dRCRes i hi h
+            · subst h; have := c1'.wf _ (ownRC1.2 _ hi); omega
+            · rcases List.mem_cons.1 hi with h' | h'
+              · subst h'; exact hrRef h
+              · exact dRefRest i h h'
+          · intro i hi hm
+            rcases List.mem_append.1 hm with h | h
+            · rcases List.mem_cons.1 h with h' | h'
+              · subst h'; exact hrE hi
+              · exact dERest i hi h'
+            · rcases (hR2 i).1 h with h' | h' | h'
+              · exact dERes i hi h'
+              · subst h'; have := wf _ (ownE.2 _ hi); omega
+              · exact dERef i hi h'
+        have hbor2 := hborRest s2 (e.owned ++ (refCellsOwned rHdr rest ++ refsOwned res2))
+          (by
+            intro i hi hn
+            refine (c2.live i).2 (Or.inl ⟨(c1'.live i).2 (Or.inl ⟨hi, ?_⟩), by simp⟩)
+            simp; intro hc; subst hc; exact hn ((hX0 _).2 (Or.inr (Or.inr (Or.inl rfl)))))
+          (by
+            intro i hi
+            rcases List.mem_append.1 hi with h | h
+            · exact Or.inl ((hX0 _).2 (Or.inl h))
+            · rcases List.mem_append.1 h with h' | h'
+              · rcases List.mem_cons.1 h' with h'' | h''
+                · exact Or.inl ((hX0 _).2 (Or.inr (Or.inl h'')))
+                · exact Or.inl ((hX0 _).2 (Or.inr (Or.inr (Or.inr (Or.inr (Or.inl h''))))))
+              · rcases (hR2 i).1 h' with h'' | h'' | h''
+                · exact Or.inl ((hX0 _).2 (Or.inr (Or.inr (Or.inr (Or.inr (Or.inr h''))))))
+                · subst h''; exact Or.inr (by omega)
+                · exact Or.inl ((hX0 _).2 (Or.inr (Or.inr (Or.inr (Or.inl h''))))))
+        refine (ih e res2 s2 c2.wf own2 hbor2).mono ?_
+        intro r s3 ⟨a1, a2, a3, c3, h3, p3⟩
+        have hn3 := c3.next; have hh3 := c3.hits
+        refine ⟨a1, a2, a3, ⟨?_, ?_, c3.nodup, by rw [c3.sched, c2.sched, c1'.sched], by omega, by omega, c3.wf⟩, ?_, p3⟩
+        · intro i
+          rw [c3.live, c2.live, c1'.live, hX0]
+          have b1 := hR2 i; have b2 := hold i; have b7 := wf i
+          generalize (match r.2 with | none => [] | some one => rHdr :: refsOwned one) = P at *
+          simp only [refCellsOwned] at *
+          generalize cellsOwned StrElt.owned rest = RS at *
+          generalize refsOwned result = RR at *
+          generalize refsOwned res2 = R2 at *
+          simp only [List.mem_cons, List.mem_append, List.mem_singleton, List.not_mem_nil, or_false, not_false_eq_true, and_true] at b2 ⊢
+          clear ih hfail hborRest c1 c1' c2 c3 own ownE ownT ownT' ownCR ownRR ownRef ownRest ownRes keep1 keep2 ownE1 ownRef1 ownRest1 ownRes1 ownRC1 hold hbor hX0 own2 hbor2 hR2 p3
+          grind
+        · intro i hi
+          have b0 := c3.fresh i hi; have b1 := hR2 i
+          generalize (match r.2 with | none => [] | some one => rHdr :: refsOwned one) = P at *
+          simp only [refCellsOwned] at *
+          generalize cellsOwned StrElt.owned rest = RS at *
+          generalize refsOwned result = RR at *
+          generalize refsOwned res2 = R2 at *
+          simp only [List.mem_cons, List.mem_append] at b0 ⊢
+          clear ih hfail hborRest c1 c1' c2 c3 own ownE ownT ownT' ownCR ownRR ownRef ownRest ownRes keep1 keep2 ownE1 ownRef1 ownRest1 ownRes1 ownRC1 hold hbor hX0 own2 hbor2 hR2 p3
+          grind
+        · intro hh
+          exact h3 (by omega)
+
+/-- `wbxml_strtbl_check_references` (repaired): whatever fails, every string, every reference
+    element and the three temporary lists are accounted for — moved to the string table, returned
+    in `one_ref`, or released. `*strings` is left alone only when the very first allocation fails
+    (and then nothing else happened); otherwise it is destroyed and reset. -/
+theorem checkReferences_spec (e : AEnc) (strings : AList ABuf) (stat : Bool) (s : Ledger) (wf : s.WF)
+    (own : Owns s (e.owned ++ stringsOwned stat strings.hdr strings.cells))
+    (hbor : stat = true → ∀ b ∈ strings.cells.map (·.2),
+      b.hdr ∈ s.live ∧ b.hdr ∉ e.owned ++ stringsOwned stat strings.hdr strings.cells) :
+    Good (checkReferences e strings stat) s (fun r s' =>
+      r.1.hdr = e.hdr ∧ r.1.output = e.output ∧ r.1.useStrtbl = e.useStrtbl ∧
+      Clean s s' (e.owned ++ stringsOwned stat strings.hdr strings.cells)
+        (r.1.owned ++ ((match r.2.2.1 with | none => [] | some l => stringsOwned stat l.hdr l.cells) ++
+          (match r.2.2.2 with | none => [] | some one => refsOwned one))) ∧
+      (r.2.1 ≠ OK → r.2.2.2 = none) ∧ (r.2.1 = OK → r.2.2.1 = none ∧ r.2.2.2.isSome) ∧
+      (s.hits < s'.hits → r.2.1 ≠ OK) ∧
+      (∀ l', r.1.strstbl = some l' → ∀ x ∈ l'.items, (∃ l, e.strstbl = some l ∧ x ∈ l.items) ∨ x.stat = false)) := by
+  obtain ⟨ownE, ownS, dES⟩ := Owns.append_iff.1 own
+  have hold : ∀ i ∈ e.owned ++ stringsOwned stat strings.hdr strings.cells, i ≤ s.next := fun i hi => wf i (own.2 i hi)
+  unfold checkReferences
+  simp only [bind_eq, pure_eq]
+  refine Good.bind (listCreate_spec (ι := StrElt) s wf) ?_
+  intro referenced s1 ⟨c1, h1, e1⟩
+  have hn1 := c1.next; have hh1 := c1.hits
+  cases referenced with
+  | none =>
+    simp only [good_ret, List.append_nil]
+    refine ⟨by simp, by simp, by simp, ?_, by simp, by simp [ENOMEM, OK], by simp [ENOMEM, OK], fun l' hl' x hx => Or.inl ⟨l', hl', hx⟩⟩
+    have cid := Clean.id wf own
+    refine ⟨?_, fun i hi => Or.inl hi, cid.nodup, c1.sched, c1.next, c1.hits, c1.wf⟩
+    intro i; rw [c1.live]; have := cid.live i; simp only [List.not_mem_nil, or_false, not_false_eq_true, and_true] at *; grind
+  | some referenced =>
+    simp only
+    have hrc := e1 referenced rfl
+    have hh1' : ¬ s.hits < s1.hits := by intro hh; have := h1 hh; simp at this
+    have hfr : s.next < referenced.hdr ∧ referenced.hdr ≤ s1.next := by
+      have := c1.fresh referenced.hdr (by simp); simpa using this
+    have c1' : Clean s s1 [] [referenced.hdr] := by simpa using c1
+    have keep1 : ∀ Y : List Nat, Owns s Y → Owns s1 Y := fun Y oY => c1'.keeps oY (by simp)
+    have hRef0 : refsOwned referenced = [referenced.hdr] := by simp [refsOwned, hrc, cellsOwned]
+    have ownC : Owns s1 (stringsOwned stat strings.hdr strings.cells ++ refsOwned referenced) := by
+      rw [hRef0]
+      refine Owns.append_iff.2 ⟨keep1 _ ownS, c1'.owns, ?_⟩
+      intro i hi hm; simp at hm; subst hm
+      have := hold _ (List.mem_append_right _ hi); omega
+    refine Good.bind (countRefs_spec (fun b => b ∈ s.live ∧ b ∉ e.owned ++ stringsOwned stat strings.hdr strings.cells)
+      stat strings.hdr strings.cells referenced s1 c1.wf ownC (by simp [hrc]) hbor) ?_
+    intro ref' s2 ⟨cc, hc, pc⟩
+    rw [hRef0] at cc
+    have hn2 := cc.next; have hh2 := cc.hits
+    -- `e` is untouched by the counting loop
+    have dEC : ∀ i ∈ e.owned, i ∉ stringsOwned stat strings.hdr strings.cells ++ [referenced.hdr] := by
+      intro i hi hm
+      rcases List.mem_append.1 hm with h | h
+      · exact dES i hi h
+      · simp at h; subst h; have := hold _ (List.mem_append_left _ hi); omega
+    have ownE2 : Owns s2 e.owned := cc.keeps (keep1 _ ownE) dEC
+    cases ref' with
+    | none =>
+      simp only [good_ret, List.append_nil]
+      refine ⟨by simp, by simp, by simp, ⟨?_, fun i hi => Or.inl (List.mem_append_left _ hi), ownE.1, by rw [cc.sched, c1.sched], by omega, by omega, cc.wf⟩,
+        by simp, by simp [ENOMEM, OK], by simp [ENOMEM, OK], fun l' hl' x hx => Or.inl ⟨l', hl', hx⟩⟩
+      intro i
+      rw [cc.live, c1'.live]
+      have a1 := ownE.2 i; have a2 := dES i; have a3 := hold i
+      simp only [List.mem_append, List.mem_singleton, List.not_mem_nil, or_false, not_false_eq_true, and_true] at *
+      generalize stringsOwned stat strings.hdr strings.cells = SS at *
+      clear c1 c1' cc own ownE ownS ownC keep1 ownE2 dEC hold hbor pc
+      grind
+    | some ref' =>
+      simp only
+      have hp := pc ref' rfl
+      have ccP : Clean s1 s2 (stringsOwned stat strings.hdr strings.cells ++ [referenced.hdr]) (strings.hdr :: refsOwned ref') := by simpa using cc
+      obtain ⟨hsl2, hsn2, ownR2⟩ := Owns.cons_iff.1 ccP.owns
+      -- ids of the references: old string blocks or younger than `s`
+      have hfR : ∀ i ∈ refsOwned ref', i ∈ stringsOwned stat strings.hdr strings.cells ∨ s.next < i := by
+        intro i hi
+        rcases ccP.fresh i (List.mem_cons_of_mem _ hi) with h | h
+        · rcases List.mem_append.1 h with h' | h'
+          · exact Or.inl h'
+          · simp at h'; subst h'; exact Or.inr hfr.1
+        · exact Or.inr (by omega)
+      have dER : ∀ i ∈ e.owned, i ∉ refsOwned ref' := by
+        intro i hi hm
+        rcases hfR i hm with h | h
+        · exact dES i hi h
+        · have := hold _ (List.mem_append_left _ hi); omega
+      refine Good.bind (listDestroy_spec (fun _ => ([] : List Nat)) _ (fun it t wft _ => by simp only [pure_eq, good_ret]; exact ⟨Clean.rfl wft, rfl, rfl⟩)
+        (some (⟨strings.hdr, []⟩ : AList ABuf)) s2 cc.wf (by simpa [listOwned, cellsOwned] using (Owns.cons_iff.2 ⟨hsl2, by simp, Owns.nil s2⟩))) ?_
+      intro _ s3 ⟨d3, hd3, nd3⟩
+      have d3' : Clean s2 s3 [strings.hdr] [] := by simpa [listOwned, cellsOwned] using d3
+      have keep3 : ∀ Y : List Nat, Owns s2 Y → strings.hdr ∉ Y → Owns s3 Y :=
+        fun Y oY hY => d3'.keeps oY (by intro i hi hm; simp at hm; subst hm; exact hY hi)
+      have ownE3 : Owns s3 e.owned := keep3 _ ownE2 (fun hm => dES _ hm (by simp [stringsOwned]))
+      have ownR3 : Owns s3 (refsOwned ref') := keep3 _ ownR2 hsn2
+      refine Good.bind (listCreate_spec (ι := StrElt) s3 d3.wf) ?_
+      intro result s4 ⟨c4, h4, e4⟩
+      have hn4 := c4.next; have hh4 := c4.hits
+      have keep4 : ∀ Y : List Nat, Owns s3 Y → Owns s4 Y := fun Y oY => c4.keeps oY (by simp)
+      cases result with
+      | none =>
+        simp only
+        refine Good.bind (listDestroy_spec StrElt.owned _ elt_destroys (some ref') s4 c4.wf (by simpa [listOwned] using keep4 _ ownR3)) ?_
+        intro _ s5 ⟨d5, hd5, nd5⟩
+        have d5' : Clean s4 s5 (refsOwned ref') [] := by simpa [listOwned] using d5
+        simp only [good_ret, List.append_nil]
+        refine ⟨by simp, by simp, by simp, ⟨?_, fun i hi => Or.inl (List.mem_append_left _ hi), ownE.1,
+          by rw [d5.sched, c4.sched, d3.sched, cc.sched, c1.sched], by omega, by omega, d5.wf⟩,
+          by simp, by simp [ENOMEM, OK], by simp [ENOMEM, OK], fun l' hl' x hx => Or.inl ⟨l', hl', hx⟩⟩
+        intro i
+        rw [d5'.live, c4.live, d3'.live, ccP.live, c1'.live]
+        have a1 := ownE.2 i; have a2 := dES i; have a3 := hold i; have a4 := dER i
+        have a5 : strings.hdr ∉ e.owned := fun hm => dES _ hm (by simp [stringsOwned])
+        simp only [List.mem_append, List.mem_singleton, List.mem_cons, List.not_mem_nil, or_false, not_false_eq_true, and_true] at *
+        generalize stringsOwned stat strings.hdr strings.cells = SS at *
+        generalize refsOwned ref' = RR at *
+        clear c1 c1' cc ccP d3 d3' c4 d5 d5' own ownE ownS ownC keep1 keep3 keep4 ownE2 ownE3 ownR2 ownR3 dEC hold hbor pc hp hfR dER
+        grind
+      | some result =>
+        simp only
+        have hrc4 := e4 result rfl
+        have hh4' : ¬ s3.hits < s4.hits := by intro hh; have := h4 hh; simp at this
+        have hfres : s3.next < result.hdr ∧ result.hdr ≤ s4.next := by
+          have := c4.fresh result.hdr (by simp); simpa using this
+        have c4' : Clean s3 s4 [] [result.hdr] := by simpa using c4
+        have hRes0 : refsOwned result = [result.hdr] := by simp [refsOwned, hrc4, cellsOwned]
+        have ownSp : Owns s4 (e.owned ++ (refCellsOwned ref'.hdr ref'.cells ++ refsOwned result)) := by
+          rw [hRes0]
+          refine Owns.append_iff.2 ⟨keep4 _ ownE3, Owns.append_iff.2 ⟨keep4 _ ownR3, c4'.owns, ?_⟩, ?_⟩
+          · intro i hi hm; simp at hm; subst hm
+            have := d3.wf _ (ownR3.2 _ hi); omega
+          · intro i hi hm
+            rcases List.mem_append.1 hm with h | h
+            · exact dER i hi h
+            · simp at h; subst h; have := hold _ (List.mem_append_left _ hi); omega
+        have hborSp : ∀ x ∈ ref'.cells.map (·.2), x.stat = true →
+            x.string.hdr ∈ s4.live ∧ x.string.hdr ∉ e.owned ++ (refCellsOwned ref'.hdr ref'.cells ++ refsOwned result) := by
+          intro x hx hst
+          obtain ⟨hl, hn⟩ := hp x hx hst
+          have hle := wf _ hl
+          have hnS : x.string.hdr ∉ stringsOwned stat strings.hdr strings.cells := fun hm => hn (List.mem_append_right _ hm)
+          have hnE : x.string.hdr ∉ e.owned := fun hm => hn (List.mem_append_left _ hm)
+          refine ⟨?_, ?_⟩
+          · refine (c4'.live _).2 (Or.inl ⟨(d3'.live _).2 (Or.inl ⟨(ccP.live _).2 (Or.inl ⟨(c1'.live _).2 (Or.inl ⟨hl, by simp⟩), ?_⟩), ?_⟩), by simp⟩)
+            · intro hm
+              rcases List.mem_append.1 hm with h | h
+              · exact hnS h
+              · simp at h; omega
+            · simp; intro h; exact hnS (by rw [h]; simp [stringsOwned])
+          · intro hm
+            rcases List.mem_append.1 hm with h | h
+            · exact hnE h
+            · rcases List.mem_append.1 h with h' | h'
+              · rcases hfR _ h' with h'' | h''
+                · exact hnS h''
+                · omega
+              · rw [hRes0] at h'; simp at h'; omega
+        refine Good.bind (splitRefs_spec ref'.hdr ref'.cells e result s4 c4.wf ownSp hborSp) ?_
+        intro r5 s5 ⟨eh5, eo5, eu5, cs, h5, p5⟩
+        obtain ⟨e5, oneRef⟩ := r5
+        simp only at eh5 eo5 eu5 cs h5 p5 ⊢
+        rw [hRes0] at cs
+        have hn5 := cs.next; have hh5 := cs.hits
+        have hfE5 : ∀ i ∈ e5.owned, i ∈ e.owned ∨ i ∈ stringsOwned stat strings.hdr strings.cells ∨ s.next < i := by
+          intro i hi
+          rcases cs.fresh i (List.mem_append_left _ hi) with h | h
+          · rcases List.mem_append.1 h with h' | h'
+            · exact Or.inl h'
+            · rcases List.mem_append.1 h' with h'' | h''
+              · rcases hfR i h'' with h3 | h3
+                · exact Or.inr (Or.inl h3)
+                · exact Or.inr (Or.inr h3)
+              · simp at h''; subst h''; exact Or.inr (Or.inr (by omega))
+          · exact Or.inr (Or.inr (by omega))
+        cases oneRef with
+        | none =>
+          simp only [good_ret, List.append_nil] at cs ⊢
+          refine ⟨eh5, eo5, eu5, ⟨?_, ?_, (Owns.append_iff.1 (by simpa using cs.owns : Owns s5 (e5.owned ++ []))).1.1,
+            by rw [cs.sched, c4.sched, d3.sched, cc.sched, c1.sched], by omega, by omega, cs.wf⟩,
+            by simp, by simp [ENOMEM, OK], by simp [ENOMEM, OK], p5⟩
+          · intro i
+            rw [cs.live, c4'.live, d3'.live, ccP.live, c1'.live]
+            have a1 := ownE.2 i; have a2 := dES i; have a3 := hold i; have a4 := dER i; have a6 := hfE5 i; have a7 := wf i
+            have a5 : strings.hdr ∉ e.owned := fun hm => dES _ hm (by simp [stringsOwned])
+            have a8 := ownS.2 i
+            simp only [refCellsOwned] at *
+            generalize stringsOwned stat strings.hdr strings.cells = SS at *
+            generalize hRR : refsOwned ref' = RR at *
+            simp only [refsOwned] at hRR
+            rw [hRR]
+            simp only [List.mem_append, List.mem_singleton, List.mem_cons, List.not_mem_nil, or_false, not_false_eq_true, and_true] at *
+            clear c1 c1' cc ccP d3 d3' c4 c4' cs own ownE ownS ownC keep1 keep3 keep4 ownE2 ownE3 ownR2 ownR3 dEC hold hbor pc hp hfR dER ownSp hborSp hfE5 p5 hRR
+            grind
+          · intro i hi
+            rcases hfE5 i hi with h | h | h
+            · exact Or.inl (List.mem_append_left _ h)
+            · exact Or.inl (List.mem_append_right _ h)
+            · exact Or.inr ⟨h, by have := cs.wf i ((cs.live i).2 (Or.inr (by simpa using hi))); omega⟩
+        | some one =>
+          simp only at cs ⊢
+          have ownAll5 : Owns s5 (e5.owned ++ (ref'.hdr :: refsOwned one)) := cs.owns
+          obtain ⟨ownE5, ownT5, dE5⟩ := Owns.append_iff.1 ownAll5
+          obtain ⟨hrl5, hrn5, ownOne5⟩ := Owns.cons_iff.1 ownT5
+          refine Good.bind (listDestroy_spec StrElt.owned _ elt_destroys (some (⟨ref'.hdr, []⟩ : AList StrElt)) s5 cs.wf
+            (by simpa [listOwned, cellsOwned] using (Owns.cons_iff.2 ⟨hrl5, by simp, Owns.nil s5⟩))) ?_
+          intro _ s6 ⟨d6, hd6, nd6⟩
+          have d6' : Clean s5 s6 [ref'.hdr] [] := by simpa [listOwned, cellsOwned] using d6
+          simp only [good_ret, List.nil_append]
+          have hfOne : ∀ i ∈ refsOwned one, i ∈ stringsOwned stat strings.hdr strings.cells ∨ s.next < i := by
+            intro i hi
+            rcases cs.fresh i (List.mem_append_right _ (List.mem_cons_of_mem _ hi)) with h | h
+            · rcases List.mem_append.1 h with h' | h'
+              · exfalso
+                -- a block of `e` is in `e5.owned` or was released: it cannot be in `one_ref`
+                have hl5 := ownOne5.2 i hi
+                rcases (cs.live i).1 hl5 with ⟨_, hn⟩ | _
+                · exact hn (List.mem_append_left _ h')
+                · have := hold _ (List.mem_append_left _ h')
+                  -- i ∈ e.owned and i ∈ produced: then i ∈ e5.owned or i = ref'.hdr or i ∈ one: excluded by disjointness unless in e5
+                  sorry
+              · rcases List.mem_append.1 h' with h'' | h''
+                · rcases hfR i h'' with h3 | h3
+                  · exact Or.inl h3
+                  · exact Or.inr h3
+                · simp at h''; subst h''; exact Or.inr (by omega)
+            · exact Or.inr (by omega)
+          sorry
 
 end Wbxml.Model.Alloc
